@@ -964,8 +964,7 @@ class Item:
         nxt = close + 1
         while self.text[nxt].isspace():
             nxt += 1
-        if self.text[nxt] != "}":
-            raise Undecided("R3 inline-hof: the call is not in tail position at %s:%d" % (self.relpath, self.line_of(par)))
+        in_tail = self.text[nxt] == "}"
         c0 = self._chain_start(bo + h.start())
         recv = self.text[c0:bo + h.start()].strip()
         # arguments
@@ -1077,7 +1076,10 @@ class Item:
                 if bm[j] == "(":
                     cl = match_brace(bm, j, "(", ")")
                     arg = body[j + 1:cl].strip()
-                    if cparam:
+                    if cparam and arg.endswith("?") and re.match(r"\s*[,}]", bm[cl + 1:]):
+                        # `p(E?)` as the value of an arm of the callee: a None of E is the callee's result None
+                        subs.append((mo2.start(), cl + 1, "match %s { Some(vx_p) => { let %s = vx_p; %s }, None => None }" % (arg[:-1], cparam, cbody)))
+                    elif cparam:
                         subs.append((mo2.start(), cl + 1, "{ let %s = %s; %s }" % (cparam, arg, cbody)))
                     else:
                         subs.append((mo2.start(), cl + 1, "(%s)" % cbody))
@@ -1102,6 +1104,8 @@ class Item:
             out.append(body[last:a_]); out.append(t_); last = b_; done_upto = b_
         out.append(body[last:])
         newbody = "".join(out)
+        if not in_tail and re.search(r"\breturn\b|\?", mask(newbody)):
+            raise Undecided("R3 inline-hof: the call is not in tail position and the inlined body leaves early at %s:%d" % (self.relpath, self.line_of(par)))
         # assemble the new fn text
         pieces, last = [], fstart
         for (a_, b_) in sorted(drops):
